@@ -11,6 +11,7 @@ NA = {
     "C13": "NSEC/NSEC3 chain generation walks sorted generic record collections and hashes with ring; no contract in reach decides completeness, order or closure of a chain. A Kani harness for RtypeBitmapBuilder (one add, 236 s; two adds do not terminate) exists in kani/g0/src/dnssec.rs but is far too thin to claim the property.",
     "C08": "RFC 1034/4592 answer function over lock-protected hash-map trees (Arc/RwLock/HashMap/dyn walkers) and update histories; no contract in reach of Verus or Kani expresses or decides it (DESIGN.md section 4, C08)",
 }
+HOOK_COMMITS = [l.split()[0] for l in __import__("subprocess").check_output(["git", "-C", "/repo", "log", "--format=%h %s", "--grep", "^verification hook"]).decode().splitlines()]
 NOT_YET = "check not built yet (DESIGN.md section 8 build order); nothing is claimed on the strength of the plan alone"
 
 props = [json.loads(l) for l in open(os.path.join(VERIF, "properties.jsonl"))]
@@ -47,7 +48,7 @@ served = lambda e: [c["property_id"] for c in checks if e in c["engine"]]
 m = {
     "version": 1,
     "setup_cmd": "./setup.sh",
-    "hooks": old["hooks"],
+    "hooks": {**old["hooks"], "source_commits": HOOK_COMMITS, "add_only": True, "enable": "cargo kani sets --cfg kani (in-crate harness modules are included by #[cfg(kani)] #[path = \"/verif/kani/incrate/...\"] mod verif_kani;); no flag is needed for the Verus route", "baseline_off_cmd": "cd /repo && cargo test --workspace --no-fail-fast --offline"},
     "engines": [
         {"name": "vx", "path": "lib/vxlib.py", "serves_properties": served("vx"),
          "kind_free_text": "Verus 0.2026.09.13 on functions extracted mechanically from /repo on every run (tools/vxextract + units/*/unit.vrs)"},
